@@ -528,10 +528,36 @@ PROPS["C02"] = dict(family="parse", level="model_checking", design_ref="4.6", te
                     text="PosAt is the specification of positions; the parser's reported ranges are validated against it for every generated input in both modes.", note="Trusted: TLC, Json module, the reflective AST walk.")
 
 
+# ---------------------------------------------------------------------------------- attrs (C16)
+def corrupt_attrs(lines, pid):
+    for e in lines:
+        if e.get("ev") == "decl":
+            e["accepted"] = 1 - e["accepted"]
+            e["compiled"] = e["v"]["raw"]
+            e["compiledLower"] = e["v"]["lower"]
+            return "the compiler's verdict on one declaration inverted"
+    return None
+
+
+FAMILIES["attrs"] = dict(vdrive="attrs", trace_module="TraceD2Attrs", trace_cfg="TraceD2Attrs.cfg", corrupt=corrupt_attrs, engine="TraceD2Attrs", args={"table": _os.path.join(_os.path.dirname(_os.path.dirname(_os.path.abspath(__file__))), "specs", "attr_domains.json")}, chunk=4000, heap="3g")
+PROPS["C16"] = dict(family="attrs", level="model_checking", design_ref="4.7",
+                    technique="domain table in TLA+ (specs/attr_domains.json read by TraceD2Attrs.tla: kind, bounds or enumeration of 40 attributes/style keywords/configuration keys); TLC decides InDomain for the lexical description of every generated value and checks accepted <=> InDomain, accepted value unchanged, rejection reported inside the declaration, on the verdicts of the real d2compiler.Compile",
+                    rule=("for each of the 40 table entries and each context it applies to (object, connection, arrowhead, d2-config): the boundary values lo-1, lo, lo+1, hi-1, hi, hi+1, signed/zero-padded/overflowing/decimal/exponent/hex spellings, NaN/Inf, "
+                          "every member of an enumeration in lower, upper and capitalised case plus near misses, named/hex/gradient colour forms and malformed ones, booleans in any case and look-alikes, 11 garbage strings, and seeded random values inside and outside the range "
+                          "(quick: one round, about 2000 declarations; thorough: six rounds of random values). Non-trivial: every declaration."),
+                    exhaustive=dict(quick=False, thorough=False),
+                    assumptions=["spellings whose membership in the documented domain is debatable are not generated: 1/0/t/f for booleans, 4- and 8-digit hex colours, negative pad",
+                                 "values are written bare when the unquoted syntax carries them, else double-quoted",
+                                 "an object context always has an icon so that shape: image and icon.near are admissible; 'rejection at the value' is checked as: the first error's position lies inside the text of the declaration (configuration errors are reported at the key)",
+                                 "whether a gradient is valid is known by construction of the generated value; named colours and hex lengths are decided in TLA+"],
+                    text="The documented domains are a table; acceptance by the real compiler is compared with table membership decided by TLC.", note="Trusted: TLC, Json module, the lexical description of values in the harness (lexValue).")
+
+
 # ------------------------------------------------------------------------------- manifest data
 HOOK_COMMITS = ["9d004ebd4", "879b5d739"]
 
 ENGINES = {
+    "TraceD2Attrs": dict(path="specs/TraceD2Attrs.tla, specs/attr_domains.json", kind="TLA+ domain table of attribute values (InDomain) evaluated by TLC on the accept/reject verdicts and compiled values of the real compiler"),
     "TraceD2Parse": dict(path="specs/TraceD2Parse.tla", kind="TLA+ definition of source positions (PosAt) + totality contract, evaluated by TLC on the real parser's trees and errors"),
     "TraceD2Oracle": dict(path="specs/TraceD2Oracle.tla", kind="TLA+ action system of the d2oracle API over an identity-keyed graph (effects + frame conditions), evaluated by TLC on before/after snapshots of real edit histories"),
     "TracePipeline": dict(path="specs/TracePipeline.tla", kind="TLA+ stage machine of the tool chain whose per-stage guards are the properties; TLC evaluates them on the facts logged from the real stages for a fixed generated input space"),
